@@ -125,7 +125,9 @@ fn exec(re: &Regex, case: &Case, lim: LimitOverride, monitor: bool) -> Exec {
         None
     };
     budget::install();
-    budget::arm(budget::DEFAULT_INSNS, u64::MAX);
+    // a search on these tiny texts that needs more than 40 M instructions is skipped as too heavy
+    // (the monitored fault-free pass costs ~0.1 us per instruction)
+    budget::arm(40_000_000, u64::MAX);
     let out = call(re, case);
     budget::disarm();
     verif::set_observer(None);
@@ -180,6 +182,10 @@ fn found(class: &str, detail: String, fault: Option<Fault>) -> Option<Found> {
 /// Oracle for one faulted execution against the fault-free facts (u, n, p).
 fn judge(fault: &Fault, e: &Exec, u: &Outcome<Res>, n: u64, p: usize, st: &mut CaseStats) -> Option<Found> {
     let f = Some(fault.clone());
+    if matches!(&e.out, Outcome::Panic(m) if m == budget::INSN_PAYLOAD) {
+        // over the instruction budget: too heavy for this workload, not judged
+        return None;
+    }
     let Some(rs) = e.stats else {
         return found("no-run-recorded", format!("fault {:?}: the search did not reach vm::run", fault), f);
     };
